@@ -48,6 +48,17 @@
 (* (cfg.tg = "same") or by n different ones whose ids fall into different lock shards          *)
 (* ("distinct").  Keying the mutex on the code's issuer (cfg.key = "issuer") still serialises  *)
 (* the first case and leaves the second one unprotected: named deviation WrongLockKey.         *)
+(* A mutex is an object: `entry` says which mutex the service's table holds for a key, `mx`     *)
+(* which one a request locked or waits for, `lock` who holds it.  In the code the table is a    *)
+(* fixed array (one permanent mutex per key).  Variant "lockdrop" (not the code): mutexes are  *)
+(* created on demand and the table entry is deleted on unlock - a request that was waiting     *)
+(* takes over the old mutex while a request arriving after the return creates a fresh one and  *)
+(* runs next to it: named deviation LockEntryDropped.  Arrival times are part of a behaviour:  *)
+(* Call(p) may happen at any point, in particular after another request has returned.          *)
+(*                                                                                             *)
+(* Histories (caps with an explicit removal: conncap CloseConnection, ctrlcap / tuncap Remove):*)
+(* ReRelease(p) removes an id that is not registered - a second close of the same connection,  *)
+(* or a close of an id never seen.  It must change nothing; at most MaxReRel per behaviour.    *)
 (*                                                                                             *)
 (* The configuration (kind, n, limit, nodes) is chosen in Init, so one TLC run covers every    *)
 (* kind, n \in NS and limit \in Lims.  limit 0: the caps mean "unlimited"; the two storage      *)
@@ -59,7 +70,10 @@ CONSTANTS Kinds,        \* subset of {"conncap","ctrlcap","tuncap","maplimit","c
           Lims,         \* limit values
           NodeCounts,   \* numbers of service instances (quota kinds only; other kinds always 1)
           LockKeys,     \* subset of {"owner", "issuer"}: client id the repaired quota code keys its mutex on
-          Variants,     \* faulty variants to model: "ctrlsplit" = ClientRegistry.Register evicts and inserts in two lock sections
+          Variants,     \* faulty variants to model: "ctrlsplit" = ClientRegistry.Register evicts and inserts in two lock sections;
+                        \* "lockdrop" = the quota mutex table creates mutexes on demand and deletes the entry on unlock
+          MaxReRel,     \* removals of absent ids per behaviour
+          Slacks,       \* free slots at the start: occupancy = limit - slack (1 = the boundary; 2 lets one request in before two race)
           FixedKinds,   \* kinds modelled in their repaired form; the tag "maplive" = the mapping handler keeps the slot
                         \* while the connection lives (kind maplimit, actions GoLive instead of Detach)
           WithRelease,  \* admitted requests may end (connection closed) while others still race
@@ -70,18 +84,21 @@ MaxN == 4
 Procs == 1..MaxN
 Old == 100              \* pre-existing occupants are numbered Old+1, Old+2, ...
 
-VARIABLES cfg,    \* [k, n, lim, nodes, tg, key] - fixed per behaviour
+VARIABLES cfg,    \* [k, n, lim, nodes, tg, key, slack] - fixed per behaviour
           pc,     \* per request: off | start | mid | undo | evict | wait | count | put | index | adm | live | refused | rel | evicted
           cnt,    \* the number the code compares with the limit (len(map) / activeConnCount / countable index entries)
           pre,    \* pre-existing occupants still present
           q,      \* ctrlcap: connections in the registry, oldest first
-          lock,   \* repaired quotas: holder of the mutex <<instance, key>> (0 = free); ctrlcap: lock[RL] = holder of the registry lock
+          lock,   \* holder of each mutex (0 = free); ctrlcap: lock[RLM] = holder of the registry lock
+          entry,  \* repaired quotas: the mutex the service's table holds for <<instance, key>> (0 = none)
+          mx,     \* repaired quotas: the mutex a request locked or waits for
+          nrr,    \* removals of absent ids so far
           eff,    \* ghost: net contribution of each request to the semantic state
           dev,    \* ghost: a named deviation happened (StaleInsert, StalePut, SlotFreedWhileLive)
           over,   \* ghost: the limit was exceeded at some instant of this behaviour
           hist
-vars == <<cfg, pc, cnt, pre, q, lock, eff, dev, over, hist>>
-view == <<cfg, pc, cnt, pre, q, lock, eff, dev, over>>
+vars == <<cfg, pc, cnt, pre, q, lock, entry, mx, nrr, eff, dev, over, hist>>
+view == <<cfg, pc, cnt, pre, q, lock, entry, mx, nrr, eff, dev, over>>
 
 K == cfg.k
 Lim == cfg.lim
@@ -97,9 +114,12 @@ Node(p) == IF cfg.nodes = 1 THEN 1 ELSE 1 + (p % 2)
 KeyOf(p) == IF K = "mapquota" /\ cfg.key = "issuer" /\ cfg.tg = "distinct" THEN p ELSE 0
 LockIds == (1..2) \X (0..MaxN)
 LK(p) == <<Node(p), KeyOf(p)>>
-RL == <<1, 0>>                                  \* ctrlcap: the registry lock
+PermId(i) == 100 + 10 * i[1] + i[2]            \* the permanent mutex of a key (fixed array slot)
+MX == (1..MaxN) \cup {PermId(i) : i \in LockIds}  \* mutex objects; p = the mutex request p created (variant lockdrop)
+LockDrop == "lockdrop" \in Variants
+RLM == PermId(<<1, 0>>)                          \* ctrlcap: the registry lock
 CtrlLocked == "ctrlsplit" \notin Variants
-RegFree == K = "ctrlcap" /\ CtrlLocked => lock[RL] = 0
+RegFree == K = "ctrlcap" /\ CtrlLocked => lock[RLM] = 0
 
 Full(c) == Lim > 0 /\ c >= Lim      \* caps: 0 = unlimited
 QFull(c) == c >= Lim                \* quotas: no zero guard in the code
@@ -108,22 +128,25 @@ Holds(s) == s \in {"adm", "live"} \/ (IsQuota /\ s = "index")      \* a code / m
 OccOf(pcx, prex) == prex + Cardinality({p \in Procs : Holds(pcx[p])})
 Occ == OccOf(pc, pre)
 
-Init == \E k \in Kinds, nn \in NS, l \in Lims, nd \in NodeCounts, tg \in {"same", "distinct"}, ky \in LockKeys :
+Init == \E k \in Kinds, nn \in NS, l \in Lims, nd \in NodeCounts, tg \in {"same", "distinct"}, ky \in LockKeys, sl \in Slacks :
+          /\ (sl > 1 => sl <= l)
           /\ (nd > 1 => k \in QuotaKinds)
           /\ (tg = "distinct" => k = "mapquota")
           /\ (ky = "issuer" => (k = "mapquota" /\ tg = "distinct" /\ k \in FixedKinds))    \* elsewhere issuer = owner
-          /\ cfg = [k |-> k, n |-> nn, lim |-> l, nodes |-> nd, tg |-> tg, key |-> ky]
-          /\ LET p0 == IF l = 0 THEN 0 ELSE l - 1 IN
+          /\ cfg = [k |-> k, n |-> nn, lim |-> l, nodes |-> nd, tg |-> tg, key |-> ky, slack |-> sl]
+          /\ LET p0 == IF l = 0 THEN 0 ELSE l - sl IN
              /\ pre = p0 /\ cnt = p0
              /\ q = [i \in 1..p0 |-> Old + i]
           /\ pc = [p \in Procs |-> IF p <= nn THEN "start" ELSE "off"]
-          /\ lock = [i \in LockIds |-> 0]
+          /\ lock = [m \in MX |-> 0]
+          /\ entry = [i \in LockIds |-> IF LockDrop THEN 0 ELSE PermId(i)]
+          /\ mx = [p \in Procs |-> 0] /\ nrr = 0
           /\ eff = [p \in Procs |-> 0]
           /\ dev = FALSE /\ over = FALSE /\ hist = <<>>
 
 Beh(h, o) == [cfg |-> cfg, over |-> o, steps |-> h]
-Got == IF \E i \in LockIds : lock'[i] # lock[i] /\ lock'[i] # 0
-       THEN lock'[CHOOSE i \in LockIds : lock'[i] # lock[i] /\ lock'[i] # 0] ELSE 0
+Got == IF \E i \in MX : lock'[i] # lock[i] /\ lock'[i] # 0
+       THEN lock'[CHOOSE i \in MX : lock'[i] # lock[i] /\ lock'[i] # 0] ELSE 0
 \* conjoined last in every action: pc', pre', lock' are already determined
 Log(p, a) == /\ over' = (over \/ (Lim > 0 /\ OccOf(pc', pre') > Lim))
              /\ hist' = Append(hist, [p |-> p, a |-> a, w |-> (pc'[p] = "wait"), g |-> Got])
@@ -132,7 +155,7 @@ Log(p, a) == /\ over' = (over \/ (Lim > 0 /\ OccOf(pc', pre') > Lim))
 \* ---- caps whose check and insert are separate steps ----------------------------------------
 Check(p) == /\ K \in CapKinds /\ pc[p] = "start"
             /\ pc' = [pc EXCEPT ![p] = IF Full(cnt) THEN "refused" ELSE "mid"]
-            /\ UNCHANGED <<cfg, cnt, pre, q, lock, eff, dev>>
+            /\ UNCHANGED <<cfg, cnt, pre, q, lock, entry, mx, nrr, eff, dev>>
             /\ Log(p, "Check")
 
 \* as is: the insert does not look at the count again (deviation StaleInsert when the cap was reached meanwhile)
@@ -140,7 +163,7 @@ Insert(p) == /\ K \in CapKinds /\ ~Fixed /\ pc[p] = "mid"
              /\ cnt' = cnt + 1 /\ eff' = [eff EXCEPT ![p] = 1]
              /\ dev' = (dev \/ Full(cnt))
              /\ pc' = [pc EXCEPT ![p] = "adm"]
-             /\ UNCHANGED <<cfg, pre, q, lock>>
+             /\ UNCHANGED <<cfg, pre, q, lock, entry, mx, nrr>>
              /\ Log(p, "Insert")
 
 \* repaired CreateConnection: count check and map insert in one write-lock section
@@ -148,19 +171,19 @@ InsertChk(p) == /\ K = "conncap" /\ Fixed /\ pc[p] = "mid"
                 /\ IF Full(cnt)
                    THEN pc' = [pc EXCEPT ![p] = "refused"] /\ UNCHANGED <<cnt, eff>>
                    ELSE pc' = [pc EXCEPT ![p] = "adm"] /\ cnt' = cnt + 1 /\ eff' = [eff EXCEPT ![p] = 1]
-                /\ UNCHANGED <<cfg, pre, q, lock, dev>>
+                /\ UNCHANGED <<cfg, pre, q, lock, entry, mx, nrr, dev>>
                 /\ Log(p, "InsertChk")
 
 \* repaired mapping handler: reserve with Add(1), compare the value Add returned, undo when over the limit
 AddCmp(p) == /\ K = "maplimit" /\ Fixed /\ pc[p] = "mid"
              /\ cnt' = cnt + 1 /\ eff' = [eff EXCEPT ![p] = 1]
              /\ pc' = [pc EXCEPT ![p] = IF Lim > 0 /\ cnt + 1 > Lim THEN "undo" ELSE "adm"]
-             /\ UNCHANGED <<cfg, pre, q, lock, dev>>
+             /\ UNCHANGED <<cfg, pre, q, lock, entry, mx, nrr, dev>>
              /\ Log(p, "AddCmp")
 Undo(p) == /\ pc[p] = "undo"
            /\ cnt' = cnt - 1 /\ eff' = [eff EXCEPT ![p] = 0]
            /\ pc' = [pc EXCEPT ![p] = "refused"]
-           /\ UNCHANGED <<cfg, pre, q, lock, dev>>
+           /\ UNCHANGED <<cfg, pre, q, lock, entry, mx, nrr, dev>>
            /\ Log(p, "Undo")
 
 \* ---- registries: check and insert under one lock -------------------------------------------
@@ -179,8 +202,8 @@ Reg(p) == /\ K \in RegKinds /\ pc[p] = "start" /\ RegFree
                   /\ pre' = IF old > Old THEN pre - 1 ELSE pre
                   /\ pc' = IF old > Old THEN [pc EXCEPT ![p] = "evict"] ELSE [pc EXCEPT ![p] = "evict", ![old] = "evicted"]
                   /\ eff' = IF old > Old THEN eff ELSE [eff EXCEPT ![old] = 0]
-          /\ lock' = IF K = "ctrlcap" /\ CtrlLocked /\ Full(cnt) THEN [lock EXCEPT ![RL] = p] ELSE lock
-          /\ UNCHANGED <<cfg, dev>>
+          /\ lock' = IF K = "ctrlcap" /\ CtrlLocked /\ Full(cnt) THEN [lock EXCEPT ![RLM] = p] ELSE lock
+          /\ UNCHANGED <<cfg, dev, entry, mx, nrr>>
           /\ Log(p, "Reg")
 
 \* ... Close returned: insert. In the code this is still the lock section of Reg(p), so the count is the one Reg left;
@@ -190,8 +213,8 @@ RegIns(p) == /\ K = "ctrlcap" /\ pc[p] = "evict"
              /\ cnt' = cnt + 1 /\ eff' = [eff EXCEPT ![p] = 1]
              /\ dev' = (dev \/ Full(cnt))
              /\ pc' = [pc EXCEPT ![p] = "adm"]
-             /\ lock' = IF CtrlLocked THEN [lock EXCEPT ![RL] = 0] ELSE lock
-             /\ UNCHANGED <<cfg, pre>>
+             /\ lock' = IF CtrlLocked THEN [lock EXCEPT ![RLM] = 0] ELSE lock
+             /\ UNCHANGED <<cfg, pre, entry, mx, nrr>>
              /\ Log(p, "RegIns")
 
 \* mapping handler: the connection got its tunnel and is relayed from now on; handleConnection returns.
@@ -200,7 +223,7 @@ GoLive(p) == /\ K = "maplimit" /\ WithRelease /\ pc[p] = "adm"
              /\ pc' = [pc EXCEPT ![p] = "live"]
              /\ cnt' = IF LiveFixed THEN cnt ELSE cnt - 1
              /\ dev' = (dev \/ ~LiveFixed)
-             /\ UNCHANGED <<cfg, pre, q, lock, eff>>
+             /\ UNCHANGED <<cfg, pre, q, lock, entry, mx, nrr, eff>>
              /\ Log(p, IF LiveFixed THEN "GoLive" ELSE "Detach")
 
 \* an admitted connection ends
@@ -209,37 +232,57 @@ Release(p) == /\ WithRelease /\ ~IsQuota /\ pc[p] \in {"adm", "live"} /\ RegFree
               /\ eff' = [eff EXCEPT ![p] = 0]
               /\ pc' = [pc EXCEPT ![p] = "rel"]
               /\ q' = SelectSeq(q, LAMBDA x : x # p)
-              /\ UNCHANGED <<cfg, pre, lock, dev>>
+              /\ UNCHANGED <<cfg, pre, lock, entry, mx, nrr, dev>>
               /\ Log(p, "Release")
+
+\* a removal of an id that is not registered: second close of a connection that is gone, close of an unknown id
+\* (a request that has not called yet owns an id nobody has seen). Nothing may change.
+ReRelease(p) == /\ WithRelease /\ K \in {"conncap", "ctrlcap", "tuncap"} /\ RegFree
+                /\ pc[p] \in {"start", "rel", "refused", "evicted"} /\ nrr < MaxReRel
+                /\ nrr' = nrr + 1
+                /\ UNCHANGED <<cfg, pc, cnt, pre, q, lock, entry, mx, eff, dev>>
+                /\ Log(p, "ReRelease")
 
 \* ---- per-client quotas over shared storage -------------------------------------------------
 \* the call of p returns in state s; repaired: the mutex of its instance goes to a waiter, which runs on to its Count
 Return(p, s) ==
-  LET ws == {w \in Procs : pc[w] = "wait" /\ LK(w) = LK(p)} IN
-  IF Fixed /\ ws # {}
-  THEN \E w \in ws : /\ pc' = [pc EXCEPT ![p] = s, ![w] = "count"]
-                     /\ lock' = [lock EXCEPT ![LK(p)] = w]
-  ELSE /\ pc' = [pc EXCEPT ![p] = s]
-       /\ lock' = IF Fixed THEN [lock EXCEPT ![LK(p)] = 0] ELSE lock
+  LET m == mx[p]
+      ws == {w \in Procs : pc[w] = "wait" /\ mx[w] = m} IN
+  IF ~Fixed THEN pc' = [pc EXCEPT ![p] = s] /\ UNCHANGED <<lock, entry, dev>>
+  ELSE /\ entry' = IF LockDrop THEN [entry EXCEPT ![LK(p)] = 0] ELSE entry      \* variant: Delete(clientID), then Unlock
+       \* deviation LockEntryDropped: the table forgets a mutex that is still in use (or somebody else's mutex)
+       /\ dev' = (dev \/ (LockDrop /\ (ws # {} \/ entry[LK(p)] # m)))
+       /\ IF ws # {}
+          THEN \E w \in ws : /\ pc' = [pc EXCEPT ![p] = s, ![w] = "count"]
+                             /\ lock' = [lock EXCEPT ![m] = w]
+          ELSE /\ pc' = [pc EXCEPT ![p] = s]
+               /\ lock' = [lock EXCEPT ![m] = 0]
 
 \* deviation WrongLockKey: p goes ahead although another request for the same quota, on the same instance, is
 \* between its count and its return - it holds a mutex, but a different one
 InFlightOtherKey(p) == \E r \in Procs \ {p} : /\ Node(r) = Node(p) /\ KeyOf(r) # KeyOf(p)
                                                /\ pc[r] \in {"count", "put", "index"}
+\* a request arrives (at any time - also after others have returned): it looks its mutex up (variant lockdrop:
+\* creates one if the table has none) and locks it or waits for it
 Call(p) == /\ IsQuota /\ pc[p] = "start"
-           /\ IF Fixed /\ lock[LK(p)] # 0
-              THEN pc' = [pc EXCEPT ![p] = "wait"] /\ lock' = lock /\ dev' = dev
-              ELSE /\ pc' = [pc EXCEPT ![p] = "count"]
-                   /\ lock' = IF Fixed THEN [lock EXCEPT ![LK(p)] = p] ELSE lock
-                   /\ dev' = (dev \/ (Fixed /\ InFlightOtherKey(p)))
-           /\ UNCHANGED <<cfg, cnt, pre, q, eff>>
+           /\ IF ~Fixed
+              THEN pc' = [pc EXCEPT ![p] = "count"] /\ UNCHANGED <<lock, entry, mx, dev>>
+              ELSE LET m == IF entry[LK(p)] = 0 THEN p ELSE entry[LK(p)] IN
+                   /\ entry' = [entry EXCEPT ![LK(p)] = m]
+                   /\ mx' = [mx EXCEPT ![p] = m]
+                   /\ IF lock[m] # 0
+                      THEN pc' = [pc EXCEPT ![p] = "wait"] /\ lock' = lock /\ dev' = dev
+                      ELSE /\ pc' = [pc EXCEPT ![p] = "count"]
+                           /\ lock' = [lock EXCEPT ![m] = p]
+                           /\ dev' = (dev \/ InFlightOtherKey(p))
+           /\ UNCHANGED <<cfg, cnt, pre, q, eff, nrr>>
            /\ Log(p, "Call")
 
 \* the decision: number of countable entries in the per-client index at the time of the read
 Count(p) == /\ IsQuota /\ pc[p] = "count"
             /\ IF QFull(cnt) THEN Return(p, "refused")
-               ELSE pc' = [pc EXCEPT ![p] = "put"] /\ lock' = lock
-            /\ UNCHANGED <<cfg, cnt, pre, q, eff, dev>>
+               ELSE pc' = [pc EXCEPT ![p] = "put"] /\ UNCHANGED <<lock, entry, dev>>
+            /\ UNCHANGED <<cfg, cnt, pre, q, eff, mx, nrr>>
             /\ Log(p, "Count")
 
 \* the record is written: the code / mapping exists (deviation StalePut when the quota was used up meanwhile)
@@ -247,18 +290,18 @@ Put(p) == /\ IsQuota /\ pc[p] = "put"
           /\ pc' = [pc EXCEPT ![p] = "index"]
           /\ eff' = [eff EXCEPT ![p] = 1]
           /\ dev' = (dev \/ QFull(Occ))
-          /\ UNCHANGED <<cfg, cnt, pre, q, lock>>
+          /\ UNCHANGED <<cfg, cnt, pre, q, lock, entry, mx, nrr>>
           /\ Log(p, "Put")
 
 \* the index entry is appended: from now on other requests count it
 Index(p) == /\ IsQuota /\ pc[p] = "index"
             /\ cnt' = cnt + 1
             /\ Return(p, "adm")
-            /\ UNCHANGED <<cfg, pre, q, eff, dev>>
+            /\ UNCHANGED <<cfg, pre, q, eff, mx, nrr>>
             /\ Log(p, "Index")
 
 Next == \E p \in Procs : \/ Check(p) \/ Insert(p) \/ InsertChk(p) \/ AddCmp(p) \/ Undo(p)
-                         \/ Reg(p) \/ RegIns(p) \/ GoLive(p) \/ Release(p)
+                         \/ Reg(p) \/ RegIns(p) \/ GoLive(p) \/ Release(p) \/ ReRelease(p)
                          \/ Call(p) \/ Count(p) \/ Put(p) \/ Index(p)
 Spec == Init /\ [][Next]_vars
 
@@ -274,8 +317,9 @@ RefusedNoEffect == \A p \in Procs : pc[p] \in {"refused", "rel", "evicted", "sta
 CounterExact == cnt = pre + Cardinality({p \in Procs : pc[p] \in {"adm", "undo"} \/ (LiveFixed /\ pc[p] = "live")})
 TypeOK == /\ cfg.n \in NS /\ cfg.lim \in Lims
           /\ \A p \in Procs : pc[p] \in {"off", "start", "mid", "undo", "evict", "wait", "count", "put", "index", "adm", "live", "refused", "rel", "evicted"}
-          /\ \A i \in LockIds : lock[i] = 0 \/ pc[lock[i]] \in {"count", "put", "index", "evict"}
-          /\ (IsQuota /\ Fixed) => \A p \in Procs : pc[p] \in {"count", "put", "index"} => lock[LK(p)] = p
+          /\ \A i \in MX : lock[i] = 0 \/ pc[lock[i]] \in {"count", "put", "index", "evict"}
+          /\ (IsQuota /\ Fixed) => \A p \in Procs : pc[p] \in {"count", "put", "index"} => lock[mx[p]] = p
+          /\ nrr \in 0..MaxReRel
 
 \* generation without VIEW: one line per maximal behaviour (every request refused, ended, evicted, or admitted for good)
 Terminal == \A p \in Procs : \/ pc[p] \in {"off", "refused", "rel", "evicted"}
